@@ -164,6 +164,18 @@ def evaluate(name, all_checks):
                 json.dump(meta, fout, indent=1)
             return meta
         meta.pop('superseded', None)
+        meta.pop('neutralised', None)
+        demo = os.path.join(dest, 'demo.py')
+        if os.path.exists(demo) and run_demo(demo, root)[0] == 0:
+            # the patch still applies, but its own demonstration passes: a
+            # later repair of /repo removed the code path it relied on
+            meta['neutralised'] = ('applies to /repo HEAD but no longer '
+                                   'breaks the property there (its own '
+                                   'demonstration passes); verdict kept from '
+                                   'the last tree on which it did')
+            with open(os.path.join(dest, 'meta.json'), 'w') as fout:
+                json.dump(meta, fout, indent=1)
+            return meta
         pid = meta['property']
         results = {}
         caught = None
@@ -207,7 +219,7 @@ def cmd_run(only, all_checks, jobs):
             rows.append(meta)
             print(f"{meta['name']:12s} {meta['property']} caught_by="
                   f"{meta.get('caught_by')} "
-                  f"{'SUPERSEDED' if meta.get('superseded') else meta['checks']}",
+                  f"{'SUPERSEDED' if meta.get('superseded') else 'NEUTRALISED' if meta.get('neutralised') else meta['checks']}",
                   flush=True)
     if not only:
         with open(os.path.join(SEEDED, 'RESULTS.md'), 'w') as fout:
@@ -220,7 +232,7 @@ def cmd_run(only, all_checks, jobs):
                 kinds = m['checks'].get(hit, {}).get('kinds') if hit else ''
                 fout.write(f"| {m['name']} | {m['property']} | "
                            f"{hit or 'MISSED'} | {kinds} | "
-                           f"{'no (superseded by a repair)' if m.get('superseded') else 'yes'} |\n")
+                           f"{'no (superseded by a repair)' if m.get('superseded') else 'yes, but neutralised by a repair' if m.get('neutralised') else 'yes'} |\n")
     missed = [m['name'] for m in rows if not m.get('caught_by')]
     print(f'{len(rows)} seeded changes, {len(missed)} missed: {missed}')
 
